@@ -28,7 +28,7 @@ func init() {
 				"R5: the conversions that feed the servers, the cache and the connection limiter copy each validated setting into the constructor field of the same meaning (a wrong-field copy would put an unvalidated value where a validated one is assumed).",
 			NotCovered: "hazards other than the recognised ones (non-positive quantities, family bounds, division by zero); validation " +
 				"of lists, URLs and cross-references between sections; the environment variables.",
-			Rules: map[string]string{"C20-R12": "cacheConfig.toInternal: cache type none exactly when size is 0; dnssvc.newListenConfig wraps a listen configuration with the connection limiter only when there is one", "C20-R11": "newServerDNS accepts exactly the documented idle-timeout interval [0, MaxTCPIdleTimeout] (interval derived from the edges into the panic)", "C20-R1": "zero / negative rejection of every numeric setting", "C20-R2": "subnet key length family bounds",
+			Rules: map[string]string{"C20-R13": "server.bindData: interface bindings without an interface-listener manager are rejected with an error", "C20-R12": "cacheConfig.toInternal: cache type none exactly when size is 0; dnssvc.newListenConfig wraps a listen configuration with the connection limiter only when there is one", "C20-R11": "newServerDNS accepts exactly the documented idle-timeout interval [0, MaxTCPIdleTimeout] (interval derived from the edges into the panic)", "C20-R1": "zero / negative rejection of every numeric setting", "C20-R2": "subnet key length family bounds",
 				"C20-R3": "section table completeness", "C20-R4": "divisor provenance", "C20-R5": "validated settings are copied into the constructor fields of the same meaning",
 				"C20-R8": "builder flags computed over all server groups accumulate (a later group cannot switch off what an earlier group needs, e.g. the profile database)",
 				"C20-R6": "DDR record validation: DoH port needs a path, hints must be of their address family"},
@@ -238,6 +238,8 @@ func runC20(c *an.Ctx) {
 			return ""
 		},
 	})
+	c.Floor("C20-R13", 1)
+	c20BindData(c)
 	// ---- R11: the stream servers accept exactly the documented idle-timeout range [0, MaxTCPIdleTimeout]
 	c.Floor("C20-R11", 1)
 	if maxIdle, ok := c.ConstInt("dnsserver", "MaxTCPIdleTimeout"); ok {
@@ -908,4 +910,34 @@ func c20PanicInterval(c *an.Ctx, rule, fnName, what string, lo, hi int64) {
 	c.Check(n > 0 && accLo == lo && accHi == hi, rule, key, fn.Pos(),
 		fmt.Sprintf("accepted range [%d, %d]", lo, hi),
 		fmt.Sprintf("the constructor accepts [%d, %d] but the documented range is [%d, %d]: a boundary value is refused or an out-of-range one accepted", accLo, accHi, lo, hi))
+}
+
+// c20BindData holds the table of a server's socket binding data: with explicit
+// addresses nothing else is consulted; interface bindings need the
+// interface-listener manager, and a configuration without one is rejected with
+// an error (never dereferenced).
+func c20BindData(c *an.Ctx) {
+	decide(c, "C20-R13", "cmd.(*server).bindData", an.DecideCfg{
+		Dom: an.Domain{"len(p0.BindAddresses)": an.Ints(0, 1), "p1": an.NilOrNot, "len(p0.BindInterfaces)": an.Ints(0)},
+		Expect: func(f an.Features, o an.AOutcome) string {
+			if len(o.Ret) != 2 {
+				return "two results"
+			}
+			switch {
+			case f.I("len(p0.BindAddresses)") > 0:
+				if o.Ret[1].Kind != an.KNil {
+					return "explicit addresses need nothing else; got " + o.RetString()
+				}
+			case f.IsNil("p1"):
+				if o.Ret[1].Kind == an.KNil || o.Ret[0].Kind != an.KNil {
+					return "an error when interfaces are to be bound but there is no interface-listener manager; got " + o.RetString()
+				}
+			default:
+				if o.Ret[1].Kind != an.KNil {
+					return "no error with a manager and no interfaces; got " + o.RetString()
+				}
+			}
+			return ""
+		},
+	})
 }
